@@ -1,1 +1,74 @@
-fn main() { println!("hello"); }
+//! runner <engine>: reads model-generated case lines on stdin (tab-separated, last field = the model's
+//! expected observation), executes the real slicec / slice-codec code, and reports
+//!   DIFF\t<case line>\t<reason>      model and implementation disagree
+//!   ORACLE\t<case line>\t<reason>    the property predicate fails on the implementation's own output
+//!   STATS\t<json>                    totals
+mod codec;
+mod dynval;
+
+use std::collections::{BTreeMap, HashSet};
+use std::hash::{Hash, Hasher};
+use std::io::{BufRead, Write};
+
+pub struct Stats {
+    pub total: u64,
+    pub diffs: u64,
+    pub oracle: u64,
+    pub families: BTreeMap<String, u64>,
+    pub samples: BTreeMap<String, Vec<String>>,
+    pub distinct_nontrivial: HashSet<u64>,
+}
+
+fn json_str(s: &str) -> String {
+    let mut o = String::from("\"");
+    for c in s.chars() {
+        match c {
+            '"' => o.push_str("\\\""), '\\' => o.push_str("\\\\"), '\n' => o.push_str("\\n"), '\t' => o.push_str("\\t"),
+            c if (c as u32) < 0x20 => o.push_str(&format!("\\u{:04x}", c as u32)),
+            c => o.push(c),
+        }
+    }
+    o.push('"');
+    o
+}
+
+fn main() {
+    std::panic::set_hook(Box::new(|_| {})); // panics are observations, not noise
+    let args: Vec<String> = std::env::args().collect();
+    let engine = args.get(1).map(String::as_str).unwrap_or("");
+    let stdin = std::io::stdin();
+    let stdout = std::io::stdout();
+    let mut out = std::io::BufWriter::new(stdout.lock());
+    let mut st = Stats { total: 0, diffs: 0, oracle: 0, families: BTreeMap::new(), samples: BTreeMap::new(), distinct_nontrivial: HashSet::new() };
+    for line in stdin.lock().lines() {
+        let line = line.expect("stdin");
+        if line.is_empty() { continue; }
+        let f: Vec<&str> = line.split('\t').collect();
+        if f[0] == "K" {
+            // the model itself violates the stated property on this input (model-level counterexample)
+            writeln!(out, "MODELCEX\t{}\t{}", f[..f.len() - 1].join(" "), f[f.len() - 1]).unwrap();
+            continue;
+        }
+        let res = match (engine, f.as_slice()) {
+            ("codec", ["enc", _fam, ty, val, exp]) => codec::run_enc(ty, val, exp),
+            ("codec", ["dec", _fam, ty, hx, exp]) => codec::run_dec(ty, hx, exp),
+            _ => codec::CaseResult { actual: "?".into(), diff: Some("unknown case shape".into()), oracle: None, nontrivial: false },
+        };
+        st.total += 1;
+        let fam = f.get(1).copied().unwrap_or("?").to_string();
+        *st.families.entry(fam.clone()).or_insert(0) += 1;
+        let s = st.samples.entry(fam).or_default();
+        if s.len() < 2 { s.push(line.clone()); }
+        if res.nontrivial {
+            let mut h = std::collections::hash_map::DefaultHasher::new();
+            f[..f.len() - 1].hash(&mut h);
+            st.distinct_nontrivial.insert(h.finish());
+        }
+        if let Some(d) = res.diff { st.diffs += 1; if st.diffs <= 200 { writeln!(out, "DIFF\t{}\t{}", line.replace('\t', " "), d).unwrap(); } }
+        if let Some(d) = res.oracle { st.oracle += 1; if st.oracle <= 200 { writeln!(out, "ORACLE\t{}\t{}", line.replace('\t', " "), d).unwrap(); } }
+    }
+    let fams: Vec<String> = st.families.iter().map(|(k, v)| format!("{}:{}", json_str(k), v)).collect();
+    let samples: Vec<String> = st.samples.values().flatten().map(|s| json_str(s)).collect();
+    writeln!(out, "STATS\t{{\"evaluations\":{},\"diffs\":{},\"oracle_failures\":{},\"distinct_nontrivial\":{},\"families\":{{{}}},\"samples\":[{}]}}",
+        st.total, st.diffs, st.oracle, st.distinct_nontrivial.len(), fams.join(","), samples.join(",")).unwrap();
+}
